@@ -343,11 +343,30 @@ mod verif {
     /// C19 select step: re-assigning the current key changes nothing; a new key installs a clone of
     /// that key's timeline started from the component's current values and resets the animator; a
     /// key without a timeline stops animation and leaves the component alone.
+    /// One harness per (key 0 mapped, key 1 mapped) - together every combination; everything else is
+    /// symbolic in each.  (As a single harness over symbolic flags the Vec behind the shim map has a
+    /// symbolic length: 4.6 M SAT variables, 25 s to > 400 s from run to run.)
     #[kani::proof]
     #[kani::unwind(4)]
-    pub(crate) fn select_animation_step_contract() {
-        let has0: bool = kani::any();
-        let has1: bool = kani::any();
+    pub(crate) fn select_animation_step_contract_h00() {
+        select_contract_body(false, false);
+    }
+    #[kani::proof]
+    #[kani::unwind(4)]
+    pub(crate) fn select_animation_step_contract_h01() {
+        select_contract_body(false, true);
+    }
+    #[kani::proof]
+    #[kani::unwind(4)]
+    pub(crate) fn select_animation_step_contract_h10() {
+        select_contract_body(true, false);
+    }
+    #[kani::proof]
+    #[kani::unwind(4)]
+    pub(crate) fn select_animation_step_contract_h11() {
+        select_contract_body(true, true);
+    }
+    fn select_contract_body(has0: bool, has1: bool) {
         let cur: u8 = kani::any::<u8>() & 1;
         let prev: Option<u8> = if kani::any() { Some(kani::any::<u8>() & 1) } else { None };
         let mut selector = selector_with(&[(0, has0), (1, has1)], cur, prev);
